@@ -167,6 +167,53 @@ func runOverlap(tier string, seed int64) {
 		emitOv(rb, "B-runs-while-A-is-held", sc)
 		emitOv(ra, "A-held-in-Read", sc)
 	}
+	// many callers at full speed, nobody held: every call still gets its own stream and must return the encoding of
+	// exactly the bytes its own reads delivered (a buffer shared between calls shows up as a foreign byte)
+	G, K := 8, 150
+	if tier == "thorough" {
+		G, K = 16, 1500
+	}
+	for round := 0; round < 2; round++ {
+		emit(Event{"op": "Cut", "source": "overlap", "overlap_seed": seed, "overlap_tier": tier})
+		res := make([][]ovResult, G)
+		startCh := make(chan struct{})
+		var wg sync.WaitGroup
+		for gi := 0; gi < G; gi++ {
+			wg.Add(1)
+			go func(gi int) {
+				defer wg.Done()
+				id := goid()
+				rr := newRng(seed, "hammer/"+strconv.Itoa(round)+"/"+strconv.Itoa(gi))
+				<-startCh
+				for i := 0; i < K; i++ {
+					cs := &callSrc{fill: newRng(seed, "hm/"+strconv.Itoa(round)+"/"+strconv.Itoa(gi)+"/"+strconv.Itoa(i)), gateAt: -1}
+					if i%5 == 4 {
+						cs.script = []rstep{{K: 1 + rr.intn(9)}, {K: 0}}
+					}
+					g.mu.Lock()
+					g.calls[id] = cs
+					g.mu.Unlock()
+					r := ovResult{n: counts[rr.intn(5)], lang: int64(rr.intn(10)), cs: cs}
+					func() {
+						defer func() {
+							if p := recover(); p != nil {
+								r.o.panicked, r.o.panicTxt = true, "panic in NewMnemonic"
+							}
+						}()
+						r.out, r.err = bip39.NewMnemonic(int(r.n), bip39.Language(r.lang))
+					}()
+					res[gi] = append(res[gi], r)
+				}
+			}(gi)
+		}
+		close(startCh)
+		wg.Wait()
+		for gi := range res {
+			for _, r := range res[gi] {
+				emitOv(r, "hammer", gi)
+			}
+		}
+	}
 	swapSource(osRandReader(), "os")
 	if serialisedRuns > 0 {
 		os.Stderr.WriteString("overlap: the library serialised " + strconv.Itoa(serialisedRuns) + " scenario(s): B waited for A\n")
